@@ -264,9 +264,11 @@ type fixture struct {
 	chain    *blockchain.Chain
 	da       *blockchain.DataAccess
 	database *db.DB
-	blocks   []*blockchain.Block // stable prefix, index = height (0 = genesis); never modified after setup
-	reg      sync.Map            // string(block id) -> blkInfo, registered BEFORE AddBlock
-	tip      atomic.Uint32       // height last published by the writer (approximate for readers)
+	blocks   []*blockchain.Block          // stable prefix, index = height (0 = genesis); never modified after setup
+	reg      sync.Map                     // string(block id) -> blkInfo, registered BEFORE AddBlock
+	enc      sync.Map                     // string(block id) -> encoded block, registered BEFORE AddBlock
+	recent   [64]atomic.Pointer[recentID] // id last committed at height h, slot h%64
+	tip      atomic.Uint32                // height last published by the writer (approximate for readers)
 }
 
 func mkBlock(r *hx.Rng, height uint32, prev []byte, ntx int) *blockchain.Block {
@@ -287,28 +289,46 @@ func mkBlock(r *hx.Rng, height uint32, prev []byte, ntx int) *blockchain.Block {
 		ids[i] = tx.ID
 	}
 	b.Header.TransactionRoot = rmt.CalculateRoot(ids)
+	if ntx > 0 {
+		b.Assets = blockchain.BlockAssets{{Module: "c20", Data: r.Bytes(24)}}
+	}
 	b.Init()
 	return b
 }
 
 func newFixture(c *ctl, r *hx.Rng, slot, height, ntx int) *fixture {
+	return newFixtureCache(c, r, slot, height, ntx, 32)
+}
+
+func (f *fixture) register(b *blockchain.Block, ntx int) {
+	f.reg.Store(string(b.Header.ID), blkInfo{b.Header.Height, ntx})
+	f.enc.Store(string(b.Header.ID), b.Encode())
+	f.recent[b.Header.Height%64].Store(&recentID{height: b.Header.Height, id: append([]byte{}, b.Header.ID...)})
+}
+
+type recentID struct {
+	height uint32
+	id     []byte
+}
+
+func newFixtureCache(c *ctl, r *hx.Rng, slot, height, ntx, cache int) *fixture {
 	database, err := db.NewInMemoryDB()
 	if err != nil {
 		panic(err)
 	}
 	f := &fixture{database: database}
-	f.chain = blockchain.NewChain(&blockchain.ChainConfig{ChainID: []byte{4, 0, 0, 0}, MaxTransactionsLength: 1 << 24, MaxBlockCache: 32, KeepEventsForHeights: -1})
+	f.chain = blockchain.NewChain(&blockchain.ChainConfig{ChainID: []byte{4, 0, 0, 0}, MaxTransactionsLength: 1 << 24, MaxBlockCache: cache, KeepEventsForHeights: -1})
 	genesis := mkBlock(r, 0, make([]byte, 32), 0)
 	f.chain.Init(genesis, database)
 	f.da = f.chain.DataAccess()
-	f.reg.Store(string(genesis.Header.ID), blkInfo{0, 0})
+	f.register(genesis, 0)
 	if err := f.chain.AddBlock(database.NewBatch(), genesis, []*blockchain.Event{}, 0, false); err != nil {
 		panic(err)
 	}
 	f.blocks = []*blockchain.Block{genesis}
 	for h := 1; h <= height; h++ {
 		b := mkBlock(r, uint32(h), f.blocks[h-1].Header.ID, ntx)
-		f.reg.Store(string(b.Header.ID), blkInfo{uint32(h), ntx})
+		f.register(b, ntx)
 		if err := f.chain.AddBlock(database.NewBatch(), b, []*blockchain.Event{}, 0, false); err != nil {
 			panic(err)
 		}
@@ -329,7 +349,7 @@ func (f *fixture) churn(c *ctl, slot int, r *hx.Rng, minH uint32, ntx int) {
 	for !c.stopped() {
 		for a := 1 + r.Intn(5); a > 0 && !c.stopped(); a-- {
 			b := mkBlock(r, cur+1, own[cur].Header.ID, ntx)
-			f.reg.Store(string(b.Header.ID), blkInfo{cur + 1, ntx})
+			f.register(b, ntx)
 			if err := f.chain.AddBlock(f.database.NewBatch(), b, []*blockchain.Event{}, 0, false); err != nil {
 				c.fail("AddBlock(height %d): %v", cur+1, err)
 				return
@@ -1071,7 +1091,7 @@ func scenarioDiffdb(cfg config, r *hx.Rng) (rec, []mmRec) {
 
 func main() {
 	out := flag.String("out", "", "output JSONL file (required)")
-	scenario := flag.String("scenario", "all", "cache|bulk|certpool|events|diffdb|all")
+	scenario := flag.String("scenario", "all", "cache|bulk|torn|certpool|events|evclose|evquit|diffdb|syncfan|all")
 	readers := flag.Int("readers", 8, "number of concurrent reader / worker goroutines")
 	ms := flag.Int("ms", 1500, "stress duration per scenario in milliseconds")
 	rounds := flag.Int("rounds", 200, "bulk lookup rounds (each of the concurrent goroutines performs one lookup per round)")
@@ -1091,7 +1111,7 @@ func main() {
 		name string
 		fn   func(config, *hx.Rng) (rec, []mmRec)
 	}
-	all := []sc{{"cache", scenarioCache}, {"bulk", scenarioBulk}, {"certpool", scenarioCertpool}, {"events", scenarioEvents}, {"diffdb", scenarioDiffdb}}
+	all := []sc{{"cache", scenarioCache}, {"bulk", scenarioBulk}, {"torn", scenarioTorn}, {"certpool", scenarioCertpool}, {"events", scenarioEvents}, {"evclose", scenarioEvClose}, {"evquit", scenarioEvQuit}, {"diffdb", scenarioDiffdb}, {"syncfan", scenarioSyncFan}}
 	todo := []sc{}
 	for _, s := range all {
 		if *scenario == "all" || *scenario == s.name {
